@@ -22,11 +22,17 @@
 #include <string.h>
 #include <stdio.h>
 #include <wchar.h>
+#include <unistd.h>
+#include <sys/wait.h>
 
 static int faults_on;           /* failpoints currently armed (script phase) */
 
 #define CALL_BEGIN(entry, fmt, a, b) do { VRT_OP2(entry, fmt, a, b); vrt_ev_begin(); } while (0)
 #define FIRED() (vrt_ev_fired() > 0)
+/* the scripts also run in measure() (in the parent, before the workers exist): a VRT_COUNT site first reached there
+ * would cache a counter id of the parent's dummy slot, so the script-level counters are skipped while measuring */
+static int measuring;
+#define COUNT(name) do { if (!measuring) VRT_COUNT(name); } while (0)
 
 static void require_fired(const char *entry, const char *what)
 {
@@ -54,13 +60,22 @@ static void count_fail(const char *entry)
 static int mkeys[MK], mvals[MK];
 static int mheld[MK];
 static cstl_map_t M;
-static int map_cmp(const void *a, const void *b, void *p) { (void)p; return *(const int *)a - *(const int *)b; }
+/* client callbacks see only what the client handed in: its own keys, its own priv pointers */
+static int mprobe;      /* erase looks a key up through a copy: what comes back must be the stored key, not the probe */
+static int map_own_key(const void *k) { return k == (const void *)&mprobe || ((const int *)k >= mkeys && (const int *)k < mkeys + MK); }
+static int map_cmp(const void *a, const void *b, void *p)
+{
+    VRT_CHECK(p == (void *)mheld, "faults.map.cmp.wrong-priv", "comparator called with a priv pointer the client never supplied");
+    VRT_CHECK(map_own_key(a) && map_own_key(b),
+              "faults.map.cmp.foreign-key", "comparator called with a key pointer the client never supplied");
+    return *(const int *)a - *(const int *)b;
+}
 static int map_clear_n;
 static void map_clear_cb(void *it, void *p)
 {
     cstl_map_iterator_t *i = it;
     const int k = (int)((const int *)i->key - mkeys);
-    (void)p;
+    VRT_CHECK(p == (void *)&map_clear_n, "faults.map.clear.wrong-priv", "clear callback called with a priv pointer the client never supplied");
     VRT_CHECK(k >= 0 && k < MK && mheld[k] && i->val == &mvals[k], "faults.map.clear.wrong-entry", "clear passed an entry the map should not hold");
     mheld[k] = 0;
     map_clear_n++;
@@ -105,7 +120,20 @@ static void map_erase(int k)
 {
     int r;
     CALL_BEGIN("map.erase", "key %ld (held %ld)", k, mheld[k]);
-    r = cstl_map_erase(&M, &mkeys[k], NULL);
+    /* the out-iterator is how the client gets its key/value back to dispose of them: every other erase asks for it */
+    if (k & 1) {
+        cstl_map_iterator_t it;
+        memset(&it, 0x5a, sizeof(it));
+        mprobe = mkeys[k];
+        r = cstl_map_erase(&M, &mprobe, &it);
+        if (r == 0) {
+            VRT_CHECK(it.key == &mkeys[k] && it.val == &mvals[k], "faults.map.erase.iterator", "erase handed back a key/value the client did not store under this key");
+            COUNT("map.erase.handed-back");
+        }
+        VRT_CHECK(cstl_map_iterator_eq(&it, cstl_map_iterator_end(&M)), "faults.map.erase.iterator-not-end", "iterator of an erase does not compare equal to end");
+    } else {
+        r = cstl_map_erase(&M, &mkeys[k], NULL);
+    }
     VRT_CHECK(r == (mheld[k] ? 0 : -1), "faults.map.erase.code", "erase returned %d for a %s key", r, mheld[k] ? "held" : "missing");
     mheld[k] = 0;
     map_audit();
@@ -115,7 +143,7 @@ static void script_map(void)
     int k;
     memset(mheld, 0, sizeof(mheld));
     for (k = 0; k < MK; k++) { mkeys[k] = (k * 7) % 29; mvals[k] = k; }
-    cstl_map_init(&M, map_cmp, NULL);
+    cstl_map_init(&M, map_cmp, mheld);
     for (k = 0; k < 6; k++) map_ins(k);
     map_ins(2);
     map_erase(1); map_erase(3);
@@ -133,7 +161,7 @@ static void epilogue_map(void)
     for (k = 0; k < MK; k++) n += mheld[k];
     map_clear_n = 0;
     VRT_OP0("map.clear", "");
-    cstl_map_clear(&M, map_clear_cb, NULL);
+    cstl_map_clear(&M, map_clear_cb, &map_clear_n);
     VRT_CHECK(map_clear_n == n, "faults.map.clear.count", "clear passed %d of %d entries", map_clear_n, n);
     map_audit();
     map_ins(11);
@@ -148,10 +176,14 @@ static cstl_vector_t V;
 static int v_live[256];
 static uint64_t v_img[256];
 static int v_ctor, v_dtor;
+/* the slots the call in progress may construct (they enter [0,size)) / destroy (they leave it); empty outside resize/clear */
+static size_t v_c_lo, v_c_hi, v_d_lo, v_d_hi;
 static void v_cons(void *e, void *p)
 {
     const size_t i = ((char *)e - (char *)cstl_vector_data(&V)) / 8;
     VRT_CHECK(p == &V && i < 256 && !v_live[i], "faults.vector.ctor.slot", "constructor for a wrong or already live slot");
+    VRT_CHECK(i >= v_c_lo && i < v_c_hi, "faults.vector.ctor.slot-not-entering-size", "constructor for slot %zu, which this call does not bring into [0,size)", i);
+    COUNT("vector.ctor.slot-checked");
     v_live[i] = 1; v_img[i] = 0xc0de0000u + i * 3 + ++v_ctor * 1000003ull;
     memcpy(e, &v_img[i], 8);
 }
@@ -159,6 +191,9 @@ static void v_dest(void *e, void *p)
 {
     const size_t i = ((char *)e - (char *)cstl_vector_data(&V)) / 8;
     VRT_CHECK(p == &V && i < 256 && v_live[i], "faults.vector.dtor.slot", "destructor for a wrong or dead slot");
+    VRT_CHECK(i >= v_d_lo && i < v_d_hi, "faults.vector.dtor.slot-staying", "destructor for slot %zu, which this call does not remove from [0,size)", i);
+    VRT_CHECK(memcmp(e, &v_img[i], 8) == 0, "faults.vector.dtor.content", "destructor sees an element that is not what the constructor left there");
+    COUNT("vector.dtor.slot-checked");
     v_live[i] = 0; v_dtor++;
 }
 static size_t v_size, v_cap;
@@ -204,6 +239,7 @@ static void vec_resize(size_t n)
     const int c0 = v_ctor, d0 = v_dtor;
     const size_t cap = cstl_vector_capacity(&V);
     CALL_BEGIN("vector.resize", "%ld (size %ld)", n, v_size);
+    if (n > v_size) { v_c_lo = v_size; v_c_hi = n; } else { v_d_lo = n; v_d_hi = v_size; }
     if (VRT_ABORTS(cstl_vector_resize(&V, n))) {
         VRT_CHECK(n > cap, "faults.vector.resize.abort-within-capacity", "resize within capacity aborted");
         require_fired("vector.resize", "abort");
@@ -215,11 +251,13 @@ static void vec_resize(size_t n)
                   "faults.vector.resize.xtor-count", "constructor/destructor counts wrong");
         v_size = n;
     }
+    v_c_lo = v_c_hi = v_d_lo = v_d_hi = 0;
     vec_audit("resize");
 }
 static void script_vector(void)
 {
     memset(v_live, 0, sizeof(v_live)); v_ctor = v_dtor = 0; v_size = 0;
+    v_c_lo = v_c_hi = v_d_lo = v_d_hi = 0;
     cstl_vector_init_complex(&V, 8, v_cons, v_dest, &V);
     vec_reserve(4); vec_resize(3); vec_resize(10); vec_reserve(100); vec_shrink(); vec_resize(2);
     vec_resize(40); vec_shrink(); vec_reserve(41); vec_resize(41); vec_resize(7); vec_shrink();
@@ -230,12 +268,16 @@ static void epilogue_vector(void)
 {
     vec_resize(12); vec_shrink(); vec_resize(5);
     VRT_OP0("vector.clear", "");
+    v_d_lo = 0; v_d_hi = v_size;
     cstl_vector_clear(&V);
+    v_d_hi = 0;
     v_size = 0;
     vec_audit("clear");
     VRT_CHECK(cstl_vector_capacity(&V) == 0, "faults.vector.clear.cap", "capacity not 0 after clear");
     vec_resize(3);
+    v_d_hi = v_size;
     cstl_vector_clear(&V); v_size = 0;
+    v_d_hi = 0;
     vec_audit("clear");
 }
 
@@ -595,68 +637,283 @@ static void epilogue_hash(void)
 static cstl_unique_ptr_t PU;
 static cstl_shared_ptr_t PS[3];
 static cstl_weak_ptr_t PW;
+/*
+ * Every memory block that was handed out to the client (alloc succeeded and get() returned it) is registered here
+ * together with what the client asked for (clear callback or none, priv).  The model knows who owns it (the unique
+ * pointer; the shared pointers with a hard count; the weak pointer), so for every library call it is known which
+ * blocks that call has to destroy ("dying").  The clear callback is legal only for a dying block, once, with the
+ * registered priv; a dying block is freed exactly once inside the call; nothing else is ever passed to the callback.
+ */
+#define PB 64
+enum { PB_LIVE = 1, PB_CLEARED, PB_DEAD, PB_RELEASED };
+static struct pblk { void *mem; size_t sz; void *priv; int has_cb, shared, state, dying, hard; unsigned char fill; } pb[PB];
+static int pb_n, pu_obj, ps_obj[3], pw_obj;
+static int p_variant, p_usite, p_ssite;     /* which alloc sites get a callback / a priv pointer */
+static const char *p_entry = "none";        /* library call in progress */
+static char p_cookie[8];
 static int p_clears;
-static void p_clr(void *m, void *p) { (void)p; memset(m, 0xa5, 4); p_clears++; }
+static void p_fail(const char *what, const char *msg)
+{
+    char key[160];
+    snprintf(key, sizeof(key), "faults.memory.%s.%s", what, p_entry);
+    vrt_fail(key, "%s (during %s)", msg, p_entry);
+}
+static void p_clr(void *m, void *priv)
+{
+    int b, hit = -1, released = 0;
+    for (b = 0; b < pb_n && m != NULL; b++) {
+        if (pb[b].mem != m) continue;
+        if (pb[b].state == PB_LIVE || pb[b].state == PB_CLEARED) hit = b;
+        else if (pb[b].state == PB_RELEASED) released = 1;
+    }
+    if (hit < 0 && released) p_fail("callback-for-released-memory", "clear callback for memory the client took back with release");
+    if (hit < 0) p_fail("callback-for-memory-never-handed-out", m == NULL ? "clear callback for a NULL pointer" : "clear callback for memory the client never got from get()");
+    if (pb[hit].state == PB_CLEARED) p_fail("callback-twice", "clear callback a second time for the same memory");
+    if (!pb[hit].has_cb) p_fail("callback-never-supplied", "clear callback for memory that was allocated without one");
+    if (!pb[hit].shared && priv != pb[hit].priv) p_fail("callback-wrong-priv", "clear callback with a priv pointer other than the one given to alloc");
+    if (!pb[hit].dying) p_fail("callback-for-memory-still-owned", "clear callback for memory that this call must not destroy");
+    if (((unsigned char *)m)[0] != pb[hit].fill || ((unsigned char *)m)[pb[hit].sz - 1] != pb[hit].fill)
+        p_fail("callback-content-changed", "the memory passed to the clear callback no longer holds what the client wrote");
+    memset(m, 0xa5, pb[hit].sz);
+    pb[hit].state = PB_CLEARED;
+    p_clears++;
+    COUNT("pointers.clear-callback.checked");
+}
+static int p_register(void *mem, size_t sz, int has_cb, void *priv, int shared)
+{
+    struct pblk *x;
+    VRT_CHECK(pb_n < PB, "harness.faults.pointer-table-full", "more than %d blocks handed out in one script", PB);
+    x = &pb[pb_n];
+    memset(x, 0, sizeof(*x));
+    x->mem = mem; x->sz = sz; x->has_cb = has_cb; x->priv = priv; x->shared = shared; x->state = PB_LIVE; x->hard = 1;
+    x->fill = (unsigned char)(0x10 + pb_n);
+    memset(mem, x->fill, sz);
+    return pb_n++;
+}
+static void p_drop_shared(int i)
+{
+    const int b = ps_obj[i];
+    ps_obj[i] = -1;
+    if (b >= 0 && --pb[b].hard == 0) pb[b].dying = 1;
+}
+/* after the library call: what had to be destroyed was (callback once if supplied, freed once); returns how many blocks died */
+static int p_call_end(void)
+{
+    int b, e, n, died = 0;
+    for (b = 0; b < pb_n; b++) {
+        if (!pb[b].dying) continue;
+        if (pb[b].has_cb && pb[b].state != PB_CLEARED) p_fail("destroyed-without-callback", "memory with a clear callback was destroyed without calling it");
+        for (n = 0, e = 0; e < vrt_ev_n(); e++) if (vrt_ev(e)->kind == 'f' && vrt_ev(e)->p == pb[b].mem) n++;
+        if (n != 1) p_fail("previous-content-not-freed-once", "memory whose last owner went away was not freed exactly once inside the call");
+        pb[b].dying = 0; pb[b].state = PB_DEAD;
+        died++;
+    }
+    p_entry = "none";
+    return died;
+}
+static void p_audit(const char *after)
+{
+    int i, b;
+    char key[96];
+    snprintf(key, sizeof(key), "faults.memory.state-changed.%s", after);
+    if (cstl_unique_ptr_get(&PU) != (pu_obj >= 0 ? pb[pu_obj].mem : NULL)) vrt_fail(key, "unique pointer does not hold what the model says");
+    for (i = 0; i < 3; i++)
+        if (cstl_shared_ptr_get(&PS[i]) != (ps_obj[i] >= 0 ? pb[ps_obj[i]].mem : NULL)) vrt_fail(key, "shared pointer %d does not hold what the model says", i);
+    for (b = 0; b < pb_n; b++) {
+        const unsigned char *m = pb[b].mem;
+        if (pb[b].state == PB_LIVE && (m[0] != pb[b].fill || m[pb[b].sz - 1] != pb[b].fill)) vrt_fail(key, "live memory no longer holds what the client wrote");
+    }
+}
+static int unique_alloc(size_t sz)
+{
+    /* bit 1: no callback, bit 0: NULL priv */
+    static const unsigned char modes[2][6] = { { 0, 1, 2, 0, 3, 1 }, { 2, 0, 1, 3, 0, 2 } };
+    const int mode = modes[p_variant][p_usite % 6];
+    const int has_cb = !(mode & 2), prev = pu_obj;
+    void *const priv = (mode & 1) ? NULL : (void *)&p_cookie[p_usite % 8];
+    const size_t live0 = vrt_lib_live();
+    void *g;
+    p_usite++;
+    CALL_BEGIN("unique_ptr.alloc", "size %ld (occupied %ld)", sz, prev >= 0);
+    p_entry = "unique_ptr.alloc";
+    if (prev >= 0) { pb[prev].dying = 1; pu_obj = -1; }
+    cstl_unique_ptr_alloc(&PU, sz, has_cb ? p_clr : NULL, priv);
+    g = cstl_unique_ptr_get(&PU);
+    p_call_end();
+    if (g != NULL) {
+        require_not_fired("unique_ptr.alloc", "succeeded");
+        pu_obj = p_register(g, sz, has_cb, priv, 0);
+        if (has_cb) COUNT("pointers.unique.alloc.with-callback"); else COUNT("pointers.unique.alloc.without-callback");
+        if (priv != NULL) COUNT("pointers.unique.alloc.with-priv");
+    } else {
+        require_fired("unique_ptr.alloc", "an empty pointer");
+        count_fail("unique_ptr.alloc");
+        VRT_CHECK(vrt_lib_live() + (prev >= 0) <= live0, "faults.memory.failed-alloc-holds-memory.unique_ptr.alloc", "a failed alloc kept %zu library blocks (%zu before)", vrt_lib_live(), live0);
+        if (has_cb) COUNT("pointers.failed-alloc.with-callback");
+        if (prev >= 0) COUNT("pointers.unique.failed-alloc-onto-occupied");
+        if (prev >= 0 && pb[prev].has_cb) COUNT("pointers.failed-alloc.previous-cleared-once");
+    }
+    p_audit("unique_ptr.alloc");
+    return g != NULL;
+}
+static void unique_reset(void)
+{
+    const int prev = pu_obj;
+    CALL_BEGIN("unique_ptr.reset", "(occupied %ld)", prev >= 0, 0);
+    p_entry = "unique_ptr.reset";
+    if (prev >= 0) { pb[prev].dying = 1; pu_obj = -1; }
+    cstl_unique_ptr_reset(&PU);
+    p_call_end();
+    p_audit("unique_ptr.reset");
+}
+/* release: the client takes memory, callback and priv back; the library must never touch any of them again */
+static void unique_release(void)
+{
+    cstl_xtor_func_t *clr = NULL;
+    void *priv = p_cookie, *m;
+    const int prev = pu_obj;
+    CALL_BEGIN("unique_ptr.release", "(occupied %ld)", prev >= 0, 0);
+    p_entry = "unique_ptr.release";
+    m = cstl_unique_ptr_release(&PU, &clr, p_variant ? NULL : &priv);
+    p_call_end();
+    pu_obj = -1;
+    if (prev >= 0) {
+        VRT_CHECK(m == pb[prev].mem, "faults.memory.release.pointer", "release returned another pointer than get() did");
+        VRT_CHECK(clr == (pb[prev].has_cb ? p_clr : NULL), "faults.memory.release.callback", "release returned a callback the client did not supply for this memory");
+        if (!p_variant) VRT_CHECK(priv == pb[prev].priv, "faults.memory.release.priv", "release returned a priv pointer the client did not supply for this memory");
+        VRT_CHECK(pb[prev].state == PB_LIVE, "faults.memory.release.cleared", "release ran the clear callback");
+        pb[prev].state = PB_RELEASED;
+        vrt_lib_free_block(m);
+        COUNT("pointers.unique.release");
+    } else {
+        VRT_CHECK(m == NULL, "faults.memory.release.pointer", "release of an empty pointer returned memory");
+    }
+    p_audit("unique_ptr.release");
+}
 static int shared_alloc(int i, size_t sz)
 {
-    const size_t before = vrt_lib_live();
+    const int has_cb = ((p_ssite + p_variant) & 1) == 0, prev = ps_obj[i], occupied = prev >= 0;
+    const size_t live0 = vrt_lib_live();
+    int died;
     void *g;
+    p_ssite++;
     CALL_BEGIN("shared_ptr.alloc", "S%ld size %ld", i, sz);
-    cstl_shared_ptr_alloc(&PS[i], sz, p_clr);
+    p_entry = "shared_ptr.alloc";
+    p_drop_shared(i);
+    cstl_shared_ptr_alloc(&PS[i], sz, has_cb ? p_clr : NULL);
     g = cstl_shared_ptr_get(&PS[i]);
-    if (g != NULL) { require_not_fired("shared_ptr.alloc", "succeeded"); memset(g, 1, sz); return 1; }
-    require_fired("shared_ptr.alloc", "an empty pointer");
-    count_fail("shared_ptr.alloc");
-    (void)before;
-    return 0;
+    died = p_call_end();
+    if (g != NULL) {
+        require_not_fired("shared_ptr.alloc", "succeeded");
+        ps_obj[i] = p_register(g, sz, has_cb, NULL, 1);
+        if (has_cb) COUNT("pointers.shared.alloc.with-callback"); else COUNT("pointers.shared.alloc.without-callback");
+    } else {
+        require_fired("shared_ptr.alloc", "an empty pointer");
+        count_fail("shared_ptr.alloc");
+        VRT_CHECK(vrt_lib_live() + (size_t)died <= live0, "faults.memory.failed-alloc-holds-memory.shared_ptr.alloc", "a failed alloc kept %zu library blocks (%zu before)", vrt_lib_live(), live0);
+        if (has_cb) COUNT("pointers.failed-alloc.with-callback");
+        if (occupied && died) COUNT("pointers.shared.failed-alloc-onto-last-owner");
+        if (occupied && died && pb[prev].has_cb) COUNT("pointers.failed-alloc.previous-cleared-once");
+        if (occupied && !died) COUNT("pointers.shared.failed-alloc-onto-co-owned");
+    }
+    p_audit("shared_ptr.alloc");
+    return g != NULL;
 }
-static void script_pointers(void)
+static void shared_share(int from, int to)
 {
-    int i, have;
-    void *g;
-    p_clears = 0;
-    cstl_unique_ptr_init(&PU); cstl_weak_ptr_init(&PW);
-    for (i = 0; i < 3; i++) cstl_shared_ptr_init(&PS[i]);
-    CALL_BEGIN("unique_ptr.alloc", "size %ld", 40, 0);
-    cstl_unique_ptr_alloc(&PU, 40, p_clr, NULL);
-    g = cstl_unique_ptr_get(&PU);
-    if (g == NULL) { require_fired("unique_ptr.alloc", "an empty pointer"); count_fail("unique_ptr.alloc"); VRT_CHECK(vrt_lib_live() == 0, "faults.unique.leak", "failed unique alloc leaked"); }
-    else { require_not_fired("unique_ptr.alloc", "succeeded"); memset(g, 2, 40); }
-    have = shared_alloc(0, 24);
-    VRT_CHECK(vrt_lib_live() == (size_t)((g != NULL) + 2 * have), "faults.shared.half-built-leak", "failed shared alloc left %zu live blocks", vrt_lib_live());
-    cstl_shared_ptr_share(&PS[0], &PS[1]);
-    cstl_weak_ptr_from(&PW, &PS[1]);
-    VRT_CHECK(cstl_shared_ptr_get(&PS[1]) == cstl_shared_ptr_get(&PS[0]), "faults.shared.share", "co-owners differ");
-    /* re-allocate an occupied pointer: "reset, then allocate" */
-    have = shared_alloc(0, 48);
-    cstl_weak_ptr_lock(&PW, &PS[2]);
-    VRT_CHECK((cstl_shared_ptr_get(&PS[2]) != NULL) == (cstl_shared_ptr_get(&PS[1]) != NULL), "faults.shared.lock", "lock disagrees with the surviving owner");
-    cstl_shared_ptr_reset(&PS[1]); cstl_shared_ptr_reset(&PS[2]);
-    have = shared_alloc(1, 8);
-    CALL_BEGIN("unique_ptr.alloc", "size %ld (occupied)", 16, 0);
-    cstl_unique_ptr_alloc(&PU, 16, p_clr, NULL);
-    if (cstl_unique_ptr_get(&PU) == NULL) { require_fired("unique_ptr.alloc", "an empty pointer"); count_fail("unique_ptr.alloc"); }
-    have = shared_alloc(2, 100);
-    cstl_shared_ptr_share(&PS[2], &PS[0]);
-    cstl_weak_ptr_from(&PW, &PS[0]);
-    have = shared_alloc(2, 10);
-    have = shared_alloc(0, 10);
-    cstl_weak_ptr_lock(&PW, &PS[1]);
-    have = shared_alloc(1, 64);
-    cstl_shared_ptr_swap(&PS[0], &PS[1]);
-    have = shared_alloc(0, 5);
-    (void)have;
+    CALL_BEGIN("shared_ptr.share", "S%ld -> S%ld", from, to);
+    p_entry = "shared_ptr.share";
+    p_drop_shared(to);
+    cstl_shared_ptr_share(&PS[from], &PS[to]);
+    p_call_end();
+    ps_obj[to] = ps_obj[from];
+    if (ps_obj[to] >= 0) pb[ps_obj[to]].hard++;
+    VRT_CHECK(cstl_shared_ptr_get(&PS[to]) == cstl_shared_ptr_get(&PS[from]), "faults.shared.share", "co-owners differ");
+    p_audit("shared_ptr.share");
 }
+static void shared_reset(int i)
+{
+    CALL_BEGIN("shared_ptr.reset", "S%ld (occupied %ld)", i, ps_obj[i] >= 0);
+    p_entry = "shared_ptr.reset";
+    p_drop_shared(i);
+    cstl_shared_ptr_reset(&PS[i]);
+    p_call_end();
+    p_audit("shared_ptr.reset");
+}
+static void weak_from(int i)
+{
+    CALL_BEGIN("weak_ptr.from", "S%ld (occupied %ld)", i, ps_obj[i] >= 0);
+    p_entry = "weak_ptr.from";
+    cstl_weak_ptr_from(&PW, &PS[i]);
+    p_call_end();
+    pw_obj = ps_obj[i];
+    p_audit("weak_ptr.from");
+}
+static void weak_lock(int to)
+{
+    CALL_BEGIN("weak_ptr.lock", "-> S%ld (weak set %ld)", to, pw_obj >= 0);
+    p_entry = "weak_ptr.lock";
+    p_drop_shared(to);
+    cstl_weak_ptr_lock(&PW, &PS[to]);
+    p_call_end();
+    if (pw_obj >= 0 && pb[pw_obj].hard > 0) { ps_obj[to] = pw_obj; pb[pw_obj].hard++; }
+    VRT_CHECK(cstl_shared_ptr_get(&PS[to]) == (ps_obj[to] >= 0 ? pb[ps_obj[to]].mem : NULL), "faults.shared.lock", "lock disagrees with the surviving owner");
+    p_audit("weak_ptr.lock");
+}
+static void script_pointers_body(void)
+{
+    int i, have, uhave;
+    p_clears = 0; pb_n = 0; pu_obj = pw_obj = -1; p_usite = p_ssite = 0; p_entry = "none";
+    cstl_unique_ptr_init(&PU); cstl_weak_ptr_init(&PW);
+    for (i = 0; i < 3; i++) { cstl_shared_ptr_init(&PS[i]); ps_obj[i] = -1; }
+    uhave = unique_alloc(40);
+    if (!uhave) VRT_CHECK(vrt_lib_live() == 0, "faults.unique.leak", "failed unique alloc leaked");
+    have = shared_alloc(0, 24);
+    VRT_CHECK(vrt_lib_live() == (size_t)(uhave + 2 * have), "faults.shared.half-built-leak", "failed shared alloc left %zu live blocks", vrt_lib_live());
+    shared_share(0, 1);
+    weak_from(1);
+    /* re-allocate an occupied pointer: "reset, then allocate" */
+    shared_alloc(0, 48);
+    weak_lock(2);
+    shared_reset(1); shared_reset(2);
+    shared_alloc(1, 8);
+    unique_alloc(16);
+    shared_alloc(2, 100);
+    shared_share(2, 0);
+    weak_from(0);
+    shared_alloc(2, 10);
+    shared_alloc(0, 10);
+    weak_lock(1);
+    shared_alloc(1, 64);
+    VRT_OP0("shared_ptr.swap", "S0 <-> S1");
+    cstl_shared_ptr_swap(&PS[0], &PS[1]);
+    i = ps_obj[0]; ps_obj[0] = ps_obj[1]; ps_obj[1] = i;
+    p_audit("shared_ptr.swap");
+    shared_alloc(0, 5);
+    unique_alloc(33);
+    unique_release();
+    unique_alloc(7);        /* onto a pointer emptied by release: the released memory is the client's now */
+}
+static void script_pointers(void) { p_variant = 0; script_pointers_body(); }
+static void script_pointers_b(void) { p_variant = 1; script_pointers_body(); }
 static void epilogue_pointers(void)
 {
-    int i;
+    int i, b;
     shared_alloc(2, 12);
-    cstl_weak_ptr_from(&PW, &PS[2]);
-    cstl_unique_ptr_reset(&PU);
-    for (i = 0; i < 3; i++) cstl_shared_ptr_reset(&PS[i]);
-    cstl_weak_ptr_lock(&PW, &PS[0]);
+    weak_from(2);
+    unique_alloc(9);
+    unique_reset();
+    unique_reset();
+    for (i = 0; i < 3; i++) shared_reset(i);
+    weak_lock(0);
     VRT_CHECK(cstl_shared_ptr_get(&PS[0]) == NULL, "faults.shared.lock-after-death", "lock produced an owner of dead memory");
+    VRT_OP0("weak_ptr.reset", "");
+    p_entry = "weak_ptr.reset";
     cstl_weak_ptr_reset(&PW);
+    p_entry = "none";
+    pw_obj = -1;
+    for (b = 0; b < pb_n; b++)
+        VRT_CHECK(pb[b].state == PB_DEAD || pb[b].state == PB_RELEASED, "faults.memory.never-destroyed", "memory handed out is still owned by nobody's pointer after every pointer was reset");
 }
 
 /* ======================= arrays ======================= */
@@ -752,6 +1009,7 @@ static const struct script scripts[] = {
     { "wstring", script_wstring, epilogue_wstring },
     { "hash", script_hash, epilogue_hash },
     { "pointers", script_pointers, epilogue_pointers },
+    { "pointers-b", script_pointers_b, epilogue_pointers },
     { "arrays", script_arrays, epilogue_arrays },
     { "bigvector", script_bigvector, epilogue_bigvector },
     { "bigstring", script_bigstring, epilogue_bigstring },
@@ -783,20 +1041,48 @@ static void measure(void)
 {
     int s;
     uint8_t none[1] = { 0 };
+    static int measured;
+    if (measured) return;       /* the workers inherit the table from the parent */
+    measured = 1;
     base[0] = 0;
+    measuring = 1;
     for (s = 0; s < NSCRIPT; s++) {
         const uint64_t r = vrt_thorough ? 60000 : 6000;
-        vrt_fp_arm(none, 0, 0);
-        scripts[s].body();
-        Nalloc[s] = vrt_fp_ordinal();
-        vrt_fp_disarm();
-        scripts[s].epilogue();
+        /* count in a child: a script whose fault-free run already violates (vrt_fail outside a case ends the process)
+         * must not take the whole run with it; it gets N = 0 and its case 0 reports the violation from a worker */
+        uint64_t n = 0;
+        int fd[2], st;
+        pid_t pid = -1;
+        if (pipe(fd) == 0 && (pid = fork()) == 0) {
+            close(fd[0]);
+            vrt_fp_arm(none, 0, 0);
+            scripts[s].body();
+            n = vrt_fp_ordinal();
+            vrt_fp_disarm();
+            if (write(fd[1], &n, sizeof(n)) != (ssize_t)sizeof(n)) _exit(3);
+            scripts[s].epilogue();
+            _exit(0);
+        }
+        if (pid > 0) {
+            close(fd[1]);
+            if (read(fd[0], &n, sizeof(n)) != (ssize_t)sizeof(n)) n = 0;
+            close(fd[0]);
+            waitpid(pid, &st, 0);
+        } else {
+            vrt_fp_arm(none, 0, 0);
+            scripts[s].body();
+            n = vrt_fp_ordinal();
+            vrt_fp_disarm();
+            scripts[s].epilogue();
+        }
+        Nalloc[s] = n;
         nsingle[s] = Nalloc[s]; nsuffix[s] = Nalloc[s];
         npair[s] = Nalloc[s] * (Nalloc[s] - 1) / 2;
         ntriple[s] = Nalloc[s] <= 24 ? Nalloc[s] * (Nalloc[s] - 1) * (Nalloc[s] - 2) / 6 : 0;
         nrand[s] = r;
         base[s + 1] = base[s] + 1 + nsingle[s] + nsuffix[s] + npair[s] + ntriple[s] + nrand[s];
     }
+    measuring = 0;
 }
 
 static void run_case(uint64_t idx)
@@ -874,7 +1160,13 @@ static const char *const required[] = {
     "documented-failure.vector.resize.abort", "documented-failure.string.reserve", "documented-failure.string.growth.abort",
     "documented-failure.hash.resize", "documented-failure.hash.shrink_to_fit", "documented-failure.unique_ptr.alloc",
     "documented-failure.shared_ptr.alloc", "documented-failure.array.alloc", "documented-failure.array.set",
-    "masks.single", "masks.suffix", "masks.pair", "masks.triple", NULL
+    "masks.single", "masks.suffix", "masks.pair", "masks.triple",
+    /* client callbacks only for what the client owns: the situations were driven and the callbacks were looked at */
+    "pointers.clear-callback.checked", "pointers.unique.alloc.with-callback", "pointers.unique.alloc.without-callback", "pointers.unique.alloc.with-priv",
+    "pointers.shared.alloc.with-callback", "pointers.shared.alloc.without-callback", "pointers.failed-alloc.with-callback",
+    "pointers.unique.failed-alloc-onto-occupied", "pointers.shared.failed-alloc-onto-last-owner", "pointers.shared.failed-alloc-onto-co-owned",
+    "pointers.failed-alloc.previous-cleared-once", "pointers.unique.release",
+    "vector.ctor.slot-checked", "vector.dtor.slot-checked", "map.erase.handed-back", NULL
 };
 static const struct vrt_harness H = { "faults", ncases, run_case, winit, NULL, required, 16 };
 int main(int argc, char **argv) { return vrt_main(argc, argv, &H); }
